@@ -246,7 +246,61 @@ func runC01(r *Run) {
 			steps = 12
 		}
 		for st := 0; st < steps; st++ {
-			switch k := r.Rng.Intn(10); {
+			switch k := r.Rng.Intn(12); {
+			case k >= 10 && len(waiting) < 40:
+				// the reply arrives while the caller is still inside Write, the caller's context ends, then Write returns:
+				// the caller takes the reply or leaves (both are ready); whatever it does, the NEXT query on this
+				// connection must wait for its own reply (nothing of this one may be left behind for it)
+				gate := make(chan struct{})
+				fc.mu.Lock()
+				fc.onWrite = func(*fakeConn, []byte) error { <-gate; return nil }
+				fc.mu.Unlock()
+				c := newCall(ex)
+				c.n = len(calls)
+				calls = append(calls, c)
+				found := findWrite(func() []*fakeConn { return []*fakeConn{fc} }, c, 2*time.Second)
+				fc.mu.Lock()
+				fc.onWrite = nil
+				fc.mu.Unlock()
+				if !found {
+					close(gate)
+					ops = append(ops, "add")
+					outs = append(outs, "wid=none")
+					continue
+				}
+				w := binary.BigEndian.Uint16(c.wireQ)
+				for n := range waiting {
+					if binary.BigEndian.Uint16(calls[n].wireQ) == w {
+						r.Fail("two waiting queries share a wire id", map[string]any{"history": strings.Join(ops, ","), "wire_id": w, "callers": []int{n, c.n}})
+					}
+				}
+				lastUser[w] = c.n
+				ops = append(ops, "add")
+				outs = append(outs, fmt.Sprintf("wid=%d", w))
+				fc.feed(fc.frame(mkReply(c.wireQ, w)))
+				fc.waitDrained(time.Second)
+				c.cancel()
+				close(gate)
+				c.wait(2 * time.Second)
+				if c.verdict() == "err" {
+					checked[c.n] = true
+					ops = append(ops, fmt.Sprintf("leave:%d", c.n), fmt.Sprintf("reply:%d:%d", w, c.n))
+					outs = append(outs, "-", "dropped")
+					r.Count("pipe:left-with-reply-delivered")
+				} else {
+					ops = append(ops, fmt.Sprintf("reply:%d:%d", w, c.n))
+					outs = append(outs, fmt.Sprintf("to=%d", c.n))
+					scan(c.n)
+					r.Count("pipe:reply-inside-write-then-cancel")
+				}
+				add()
+				nb := calls[len(calls)-1]
+				if nb.wait(3*time.Millisecond) && nb.err == nil {
+					r.Fail("a query returned at once with a reply although the server had not answered it (a reply left behind by an earlier, abandoned query)", map[string]any{
+						"history": strings.Join(ops, ","), "caller": nb.n, "verdict": nb.verdict(), "stream": stream})
+					delete(waiting, nb.n)
+				}
+				scan(-1)
 			case k < 4 && len(waiting) < 40:
 				add()
 			case k < 7 && len(waiting) > 0: // answer a waiting query (any order)
